@@ -104,6 +104,8 @@ def make_form(rng, i):
                 r.cells[m if not langs or rng.random() < 0.5 else f"{m}::{rng.choice(langs)}"] = hz(rng, f"{m}file", ws=False)
             if rng.random() < 0.2:
                 r.cells["bind::odk:custom"] = hz(rng, "bindattr")
+            if rng.random() < 0.15:
+                r.cells["bind::mynote"] = rng.choice(["Yes", "no", "true", "FALSE", "yes please", hz(rng, "plainattr")])
             if rng.random() < 0.2:
                 r.cells["instance::extra"] = hz(rng, "instattr")
             if rng.random() < 0.2:
@@ -239,7 +241,7 @@ def blandify(form):
     for r, _ in g.walk():
         for h in list(r.cells):
             b, lg = split_header(h)
-            if b in TEXT_BASES or b in ("appearance", "default", "image", "audio", "video") or h.startswith(("bind::odk:custom", "instance::extra", "body::kb:flag")):
+            if b in TEXT_BASES or b in ("appearance", "default", "image", "audio", "video") or h.startswith(("bind::odk:custom", "bind::mynote", "instance::extra", "body::kb:flag")):
                 r.cells[h] = bland(r.cells[h])
     for ln, lst in g.choices.items():
         for c in lst:
@@ -395,7 +397,7 @@ def check(ctx, form, sig, fmt="dict", sample=False):
                         ctx.viol("default:markup-injected", f"{e.path}: default {r.cells['default']!r} produced child elements", wit(channel="default"))
                     elif got != exp:
                         ctx.viol("default:text-changed", f"{e.path}: instance node text {got!r}, written {r.cells['default']!r}", wit(channel="default"))
-            for h, attrname, holder in (("bind::odk:custom", "odk:custom", b), ("body::kb:flag", "kb:flag", c)):
+            for h, attrname, holder in (("bind::odk:custom", "odk:custom", b), ("bind::mynote", "mynote", b), ("body::kb:flag", "kb:flag", c)):
                 if h in r.cells and holder is not None:
                     cmp_attr(h.split("::")[0] + "-attr", f"{e.path} @{attrname}", r.cells[h], p.attr_dict(holder).get(attrname))
             if "instance::extra" in r.cells:
@@ -458,6 +460,51 @@ def check(ctx, form, sig, fmt="dict", sample=False):
         ctx.sample({"form_md": common.sheets_to_md(form.to_sheets())[:1600], "observed": "every hostile cell recovered verbatim; skeleton equal to bland twin"})
 
 
+def repeated_text_forms(ctx):
+    """The same author text in several cells (and in several conversions of one process) must come out the same every time:
+    whatever is memoised about a text may not be changed by using it."""
+    import re as _re
+    for i in range(24):
+        if not ctx.mine(i):
+            continue
+        rng = ctx.rng("repeated", i)
+        frag = rng.choice(["<b> & \"q\"", "]]> x", "<!-- c -->", "&amp; &lt;", "</label>", "\U0001F600 \u05e9\u05dc\u05d5\u05dd", "a < b > c"])
+        n_expr = rng.choice([1, 2, 2, 3])
+        exprs = [f"instance('l1')/root/item[name = 'a{k}']/label" for k in range(n_expr)]
+        text = f"{frag} " + f" mid{i} {frag} ".join(exprs) + f" tail {frag}"
+        rows = [("select_one l1", "s", {"label": "S"})] + [("note", f"n{k}", {"label": text}) for k in range(3)] + [("text", "t", {"label": "T", "hint": text})]
+        f = gen.simple_form(rows, choices={"l1": [{"name": f"a{k}", "label": f"A{k}"} for k in range(3)]})
+        first = None
+        for rnd in range(3):
+            o = drive.convert_form(f)
+            ctx.ctr("repeated_text_conversions")
+            ctx.case(sig=f"repeated|{n_expr}|{rnd}")
+            if not o.ok:
+                if rnd == 0:
+                    break
+                ctx.viol("repeated-text:later-conversion-fails", f"conversion #{rnd + 1} of the same form in one process failed: {o.brief()}", common.witness(f, klass="repeated"))
+                break
+            try:
+                p = xf.Parsed(o.xform)
+            except xf.XFError as e:
+                ctx.viol("repeated-text:output-not-wellformed", f"conversion #{rnd + 1}: {e}", common.witness(f, klass="repeated"))
+                break
+            rendered = []
+            for el in p.body.iter():
+                if isinstance(el.tag, str) and xf.local(el.tag) in ("label", "hint") and el.getparent() is not None and (el.getparent().get("ref") or "").startswith(("/data/n", "/data/t")):
+                    if xf.local(el.tag) == "label" and el.getparent().get("ref") == "/data/t":
+                        continue
+                    rendered.append(xf.content_segments(el))
+            if first is None:
+                first = rendered[0] if rendered else None
+            for k, sg in enumerate(rendered):
+                ctx.ctr("cells_recovered")
+                if sg != first:
+                    ctx.viol("repeated-text:same-text-rendered-differently", f"conversion #{rnd + 1}, occurrence #{k + 1} of one and the same cell text is rendered as {sg!r}, the first occurrence as {first!r}",
+                             common.witness(f, klass="repeated"))
+                    break
+
+
 def run_shard(ctx):
     from ..hooks import counters, install_outval_hook
     install_outval_hook()
@@ -469,6 +516,7 @@ def run_shard(ctx):
         form = make_form(rng, i)
         fmt = "xlsx" if i % 6 == 0 else "dict"
         check(ctx, form, common.feature_sig(form), fmt=fmt, sample=(i < 2))
+    repeated_text_forms(ctx)
     ctx.ctr("outval_hook_evals", counters.get("outval", 0))
     ctx.ctr("outval_hook_rewrites", counters.get("outval_changed", 0))
     for msg in counters.get("outval_violations", []):
@@ -477,8 +525,8 @@ def run_shard(ctx):
 
 def replay(w):
     def chk(ctx, wit):
-        if wit.get("klass") == "hook":
-            print("hook witness: re-run ./check C06")
+        if wit.get("klass") in ("hook", "repeated"):
+            print("hook / repeated-text witness: re-run ./check C06")
             return
         check(ctx, common.form_from_witness(wit), "replay", fmt=wit.get("fmt", "dict"))
     return common.replay_with(PROP, w, chk)
